@@ -110,6 +110,12 @@ def run(sc, external, env_extra=None):
             time.sleep(float(sc["slow"]))        # an evaluation that takes longer than the plug-in's polling interval
         if sc.get("raiseAt") == state["n"]:
             raise ValueError("user evaluator failure")
+        if sc.get("killDuring") == state["n"]:
+            # the optimizer process dies (SIGKILL) while the parent is busy with this evaluation: its request has been read,
+            # the answer will find nobody at the other end of the pipe
+            for pid in live_children():
+                os.kill(pid, signal.SIGKILL)
+            time.sleep(0.2)
         h.update(variables.tobytes()); h.update(context.realizations.tobytes())
         if context.perturbations is not None:
             h.update(context.perturbations.tobytes())
@@ -175,6 +181,8 @@ def drive(sc):
         env["RV_TERM_AFTER_READ"] = sc["after"]
     elif fault == "kill" and sc.get("status"):
         env["RV_EXIT_AFTER"] = sc["after"]
+    elif fault == "kill" and sc.get("killDuring"):
+        pass
     elif fault == "kill":
         env["RV_KILL_AFTER"] = sc["after"]
     elif fault == "childerror":
@@ -233,6 +241,8 @@ def extra_scenarios(tier, seed):
         out.append({"kind": "fault", "fault": "kill", "term": True, "after": k, "method": "slsqp", "maxfun": 12})
     for j in ((2,) if tier == "quick" else (1, 2, 3, 4)):
         out.append({"kind": "fault", "fault": "raise", "raiseAt": j, "method": "slsqp"})
+    for k in (1, 2, 4):
+        out.append({"kind": "fault", "fault": "kill", "killDuring": k, "after": k + 1, "method": "slsqp", "maxfun": 12})
     out.append({"kind": "fault", "fault": "stop", "method": "slsqp", "maxfun": 2})
     out.append({"kind": "fault", "fault": "childerror", "after": 1, "method": "slsqp"})
     out.append({"kind": "fault", "fault": "childerror", "after": 2, "method": "slsqp", "empty": True})
